@@ -144,7 +144,7 @@ class BaseURLTable(object, metaclass=abc.ABCMeta):
 
     @abc.abstractmethod
     def get_hostnames(self):
-        '''Return list of hostnames
+        '''Return list of hostnames of the start (level 0) URLs.
         '''
 
     @abc.abstractmethod
